@@ -25,10 +25,11 @@ ASSUMPTIONS = ["only the object's own storage at the time of the drop is inspect
 KINDS = ["aead_key", "aead_nonce", "exporter_secret", "shared_secret"]
 
 
-def build(env, suites, per_cell):
+def build(env, suites, per_cell, unwind=None):
     g = gen.G(env.rnd)
     rnd = env.rnd
     cw = cl.CaseW()
+    uw = dict(unwind=1) if unwind else {}
     for (kem, kdf, aead) in suites:
         for mode in gen.MODES:
             for j in range(per_cell):
@@ -39,11 +40,11 @@ def build(env, suites, per_cell):
                 auth = mode in (2, 3)
                 # --- shared secret
                 if auth:
-                    s.call("encap", pkr="$kR.pk", sks="$kS.sk", pks="$kS.pk", rng=g.rbytes(nsk), scan=1, out="e", obj="shared_secret", role="S")
-                    s.call("decap", skr="$kR.sk", enc="$e.enc", pks="$kS.pk", scan=1, obj="shared_secret", role="R")
+                    s.call("encap", pkr="$kR.pk", sks="$kS.sk", pks="$kS.pk", rng=g.rbytes(nsk), scan=1, out="e", obj="shared_secret", role="S", **uw)
+                    s.call("decap", skr="$kR.sk", enc="$e.enc", pks="$kS.pk", scan=1, obj="shared_secret", role="R", **uw)
                 else:
-                    s.call("encap", pkr="$kR.pk", rng=g.rbytes(nsk), scan=1, out="e", obj="shared_secret", role="S")
-                    s.call("decap", skr="$kR.sk", enc="$e.enc", scan=1, obj="shared_secret", role="R")
+                    s.call("encap", pkr="$kR.pk", rng=g.rbytes(nsk), scan=1, out="e", obj="shared_secret", role="S", **uw)
+                    s.call("decap", skr="$kR.sk", enc="$e.enc", scan=1, obj="shared_secret", role="R", **uw)
                 # --- setup bracketed by the ledger
                 pa = dict(psk=g.rbytes(32), pskid=g.rbytes(5)) if mode in (1, 3) else {}
                 sa = dict(sks="$kS.sk", pks="$kS.pk", **pa) if auth else dict(pa)
@@ -72,8 +73,8 @@ def build(env, suites, per_cell):
                 s.call("liveness", ctx="S")
                 s.call("liveness", ctx="R")
                 s.call("ledger", mark="before_drops")
-                s.call("drop", ctx="S", scan=1, obj="context", role="S")
-                s.call("drop", ctx="R", scan=1, obj="context", role="R")
+                s.call("drop", ctx="S", scan=1, obj="context", role="S", **uw)
+                s.call("drop", ctx="R", scan=1, obj="context", role="R", **uw)
                 s.call("ledger", mark="after_drops")
                 # a second pair, boxed and dropped the ordinary way while the freed-memory monitor is armed
                 s.call("setup_s", mode=mode, pkr="$kR.pk", info=info, rng=g.rbytes(nsk), out="HS", **sa)
@@ -421,6 +422,14 @@ def run(env):
         mr = env.pmap(monitor, res.sessions, extra=b, workload="wipe")
         if mr.counts["ledger_unavailable"]:
             env.inconclusive.append("drop ledger unavailable (hooks off?)")
+    # secrets dropped while a panic unwinds (a handler that panics while owning a context): wiped all the same;
+    # on the alloc build and on the std-feature build (where the library could ask std::thread::panicking())
+    small = [su for i, su in enumerate(suites) if i % 3 == env.seed % 3][:16]
+    utext = build(env, small, 1, unwind=True).text()
+    for b in ("checked", "checked-std"):
+        ru = env.drive("unwind", utext, build=b)
+        env.require_complete(ru, "unwind/" + b)
+        env.pmap(monitor, ru.sessions, extra=b + "+unwinding", workload="wipe")
     ship = shipping_build_text(first.sessions)
     res = env.drive("ship", ship, build="nohooks-fast")
     env.require_complete(res, "ship")
